@@ -8,7 +8,7 @@ for d in sorted(glob.glob('/verif/seeded/C??-*'), key=lambda d: (os.path.basenam
     k = int(s.split('-')[1])
     if k <= 2:
         first[s] = s not in r1_missed
-for name in ('round2-first-pass.log', 'round3-first-pass.log', 'round4-first-pass.log', 'round5-first-pass.log', 'round6-first-pass.log'):
+for name in ('round2-first-pass.log', 'round3-first-pass.log', 'round4-first-pass.log', 'round5-first-pass.log', 'round6-first-pass.log', 'round7-first-pass.log'):
     p = '/verif/seeded/' + name
     if os.path.exists(p):
         for l in open(p):
